@@ -32,10 +32,17 @@ def model():
         class X(db.Entity):
             p = orm.Required(int)
             s = orm.Optional(str)
+            ys = orm.Set('Y')
+
+        class Y(db.Entity):
+            v = orm.Required(int)
+            x = orm.Required(X)
         db.generate_mapping(create_tables=True)
         with orm.db_session:
-            for i in range(8): X(p=i, s='s%d' % i)
-        _M = types.SimpleNamespace(db=db, X=X)
+            for i in range(8):
+                x = X(p=i, s='s%d' % i)
+                for v in (i, 2 * i, 10 - i): Y(v=v, x=x)
+        _M = types.SimpleNamespace(db=db, X=X, Y=Y)
     return _M
 
 
@@ -92,6 +99,40 @@ def scenarios():
     def closure_lambda(a):
         return lambda: ps(X.select(lambda x: x.p == a * 2))
     add('lambda inside a closure', closure_lambda(3), [6])
+    # an ARGUMENT (or loop variable) captured by a nested generator, next to free variables of the enclosing function: cells and free variables share one index space
+    def py(f): return sorted(x.p for x in X.select()[:] if f(x))
+    def nested_capture(k):
+        lam = lambda x: orm.count(y for y in x.ys if y.v > x.p + k) > 0
+        return ps(X.select(lam)), py(lambda x: len([y for y in x.ys if y.v > x.p + k]) > 0)
+    add('lambda argument captured by a nested generator, one free variable', lambda: nested_capture(6), 'PAIR')
+    def nested_capture_two(k, m):
+        other = X.get(p=7)                               # an outer object that has the same attributes as the argument
+        lam = lambda x: orm.count(y for y in x.ys if y.v >= m) > 0 and x.p < k and other.p == 7
+        return ps(X.select(lam)), py(lambda x: len([y for y in x.ys if y.v >= m]) > 0 and x.p < k and other.p == 7)
+    add('lambda argument captured by a nested generator, three free variables', lambda: nested_capture_two(6, 9), 'PAIR')
+    def nested_capture_gen(k):
+        return ps(orm.select(x for x in X if orm.count(y for y in x.ys if y.v == x.p + k) > 0)), py(lambda x: len([y for y in x.ys if y.v == x.p + k]) > 0)
+    add('loop variable captured by a nested generator, one free variable', lambda: nested_capture_gen(2), 'PAIR')
+    def nested_capture_deep(k):
+        def inner(m):
+            lam = lambda x: orm.count(y for y in x.ys if y.v > k and orm.count(z for z in y.x.ys if z.v < m + x.p) > 1) > 0
+            return ps(X.select(lam)), py(lambda x: len([y for y in x.ys if y.v > k and len([z for z in y.x.ys if z.v < m + x.p]) > 1]) > 0)
+        return inner(4)
+    add('two nested generators, free variables of two enclosing functions', lambda: nested_capture_deep(8), 'PAIR')
+    # collections as outer values of `in` / `not in`: lists, sets, ranges, query results and ITERATORS over query results (an iterator stands for the items it has not handed out yet)
+    def collections_case():
+        ids = [x.p for x in X.select().order_by(X.p)]
+        qr = orm.select(x.p for x in X if x.p < 5).order_by(1)[:]                 # 0..4
+        fresh = iter(orm.select(x.p for x in X if x.p < 5).order_by(1)[:])
+        adv = iter(orm.select(x.p for x in X if x.p < 5).order_by(1)[:]); next(adv); next(adv)       # 2, 3, 4 remain
+        done = iter(orm.select(x.p for x in X if x.p < 3).order_by(1)[:]); list(done)                # nothing remains
+        adv_q = iter(orm.select(x.p for x in X if x.p < 5).order_by(1)); next(adv_q)                 # an iterator over the query itself: 1..4 remain
+        objs = iter(X.select(lambda x: x.p < 4).order_by(X.p)[:]); next(objs)                        # objects 1, 2, 3 remain
+        lst = [1, 6]; st = {2, 7}; rng = range(3, 6); tup = (0, 7)
+        return (ps(orm.select(x for x in X if x.p in lst)), ps(orm.select(x for x in X if x.p in st)), ps(orm.select(x for x in X if x.p in rng)), ps(orm.select(x for x in X if x.p not in tup)),
+                ps(orm.select(x for x in X if x.p in qr)), ps(orm.select(x for x in X if x.p in fresh)), ps(orm.select(x for x in X if x.p in adv)), ps(orm.select(x for x in X if x.p not in adv)),
+                ps(sel(x for x in X if x.p in done)), ps(sel(x for x in X if x.p in adv_q)), ps(orm.select(x for x in X if x in objs)), ps(orm.select(x for x in X if x not in objs)))
+    add('collections and iterators with in / not in', collections_case, ([1, 6], [2, 7], [3, 4, 5], [1, 2, 3, 4, 5, 6], [0, 1, 2, 3, 4], [0, 1, 2, 3, 4], [2, 3, 4], [0, 1, 5, 6, 7], [], [1, 2, 3, 4], [1, 2, 3], [0, 4, 5, 6, 7]))
     # rebinding between runs of the same code object: the translation is cached, the value must not be
     def rerun():
         res = []
@@ -216,6 +257,9 @@ def case(cfg, values):
             if isinstance(g, _Rejected): return True
             if isinstance(w, (list, tuple)) and isinstance(g, (list, tuple)): return len(g) == len(w) and all(same(a, b) for a, b in zip(g, w))
             return g == w
+        if want == 'PAIR':                                # the scenario returns (rows of the query, rows chosen by CPython evaluating the same expression on the loaded objects)
+            if not (isinstance(got, tuple) and len(got) == 2 and got[1] and len(got[1]) < 8): return [('the scenario does not discriminate', repr(got))]
+            return [] if same(got[0], got[1]) and same(got2[0], got2[1]) else [('query: %r / %r' % (got[0], got2[0]), 'python: %r' % (got[1],))]
         return [] if same(got, want) and same(got2, want) else [('query: %r / %r' % (got, got2), 'python: %r' % (want,))]
     return Case(call, {}, [], lambda run: reset(), lambda run: reset())
 
